@@ -1,15 +1,22 @@
 import Driver.Common
 import ScionVerif.Model.Layout
 import ScionVerif.Model.Access
+import ScionVerif.Model.Packet
+import ScionVerif.Spec.RefDecode
 /-! line-protocol driver for the codec models (C02: view sizes and access ranges; C03: encode / decode)
 
 requests
 * `size <kind> <hex>`      → `ok <n>` | `err small <at> <required> <actual>` | `err other <msg>` | `panic`
   kinds: header stdpath onehop info hop raw udppkt scmppkt udp scmp scmpmsg:<Name>
 * `ranges <kind> <hex>`    → `name=off+len …` for the slice-returning accessors of an accepted view (Model/Access)
+* `enc <model>`            → `ok <hex>` | `err <wire_valid message>`      (Model/Packet.encode)
+* `dec <raw|udp|scmp> <hex>` → `ok <consumed> <model>` | `err …`            (Model/Packet.decode)
+* `ref <hex>`              → `ok hl=<n> pl=<n> rsv=<n> ulen=<n> ucs=<n> scs=<n> <model-as-read-by-the-reference-decoder>` | `none`
+* `cksum <dia> <sia> <dsthex> <srchex> <proto> <a1><a2><a3> <msghex>` → digest model and spec value
+  model grammar: `tc flow nh dia sia dst src path payload` (see `showPacket`)
 * `const <name>`           → `<n>` (a generated constant, for the translator sanity check)
 -/
-open ScionVerif ScionVerif.Layout ScionVerif.Access ScionVerif.Generated.Layout Driver
+open ScionVerif ScionVerif.Layout ScionVerif.Access ScionVerif.Generated.Layout ScionVerif.Packet Driver
 
 def us (s : String) : String := String.ofList (s.toList.map (fun c => if c == ' ' then '_' else c))
 
@@ -97,6 +104,162 @@ def observable (k : String) (v : Bytes) : Option (List String) :=
   | "udp" => some (find (udpAccs v) "payload")
   | _ => none
 
+/-! ## model text -/
+
+def hexOrRep (s : String) : Option Bytes :=
+  if s.startsWith "rep:" then
+    match (s.drop 4).toString.splitOn ":" with
+    | [b, n] => match b.toNat?, n.toNat? with
+      | some bb, some nn => some (List.replicate nn (UInt8.ofNat bb))
+      | _, _ => none
+    | _ => none
+  else parseHex s
+
+def showHost : HostAddr → String
+  | .v4 b => s!"v4:{toHex b}"
+  | .v6 b => s!"v6:{toHex b}"
+  | .svc a => s!"svc:{a}"
+  | .unknown id b => s!"unk:{id}:{toHex b}"
+
+def parseHost (s : String) : Option HostAddr :=
+  match s.splitOn ":" with
+  | ["v4", h] => (parseHex h).map .v4
+  | ["v6", h] => (parseHex h).map .v6
+  | ["svc", a] => a.toNat?.map .svc
+  | ["unk", i, h] => match i.toNat?, parseHex h with
+    | some id, some b => some (.unknown id b)
+    | _, _ => none
+  | _ => none
+
+def showInfo (i : InfoFieldM) : String := s!"{i.flags},{i.segId},{i.timestamp}"
+def showHop (h : HopFieldM) : String := s!"{h.flags},{h.expTime},{h.consIngress},{h.consEgress},{toHex h.mac}"
+
+def parseInfo (s : String) : Option InfoFieldM :=
+  match (s.splitOn ",").map String.toNat? with
+  | [some f, some g, some t] => some ⟨f, g, t⟩
+  | _ => none
+
+def parseHop (s : String) : Option HopFieldM :=
+  match s.splitOn "," with
+  | [f, e, i, g, m] => match f.toNat?, e.toNat?, i.toNat?, g.toNat?, parseHex m with
+    | some f, some e, some i, some g, some m => some ⟨f, e, i, g, m⟩
+    | _, _, _, _, _ => none
+  | _ => none
+
+def allSome {α : Type} (l : List (Option α)) : Option (List α) :=
+  l.foldr (fun x acc => match x, acc with
+    | some a, some r => some (a :: r)
+    | _, _ => none) (some [])
+
+def showSeg (s : Segment) : String := String.intercalate "/" (showInfo s.info :: s.hops.map showHop)
+
+def parseSeg (s : String) : Option Segment :=
+  match s.splitOn "/" with
+  | i :: hs => match parseInfo i, allSome (hs.map parseHop) with
+    | some i, some hs => some ⟨i, hs⟩
+    | _, _ => none
+  | [] => none
+
+def showPath : DpPath → String
+  | .empty => "empty"
+  | .unsupported t d => s!"unsup:{t}:{toHex d}"
+  | .oneHop i a b => s!"onehop:{showInfo i}/{showHop a}/{showHop b}"
+  | .standard p => s!"std:{p.currInfo}:{p.currHop}:" ++ String.intercalate ";" (p.segments.map showSeg)
+
+def parsePath (s : String) : Option DpPath :=
+  if s == "empty" then some .empty else
+  match s.splitOn ":" with
+  | ["unsup", t, d] => match t.toNat?, parseHex d with
+    | some t, some d => some (.unsupported t d)
+    | _, _ => none
+  | ["onehop", r] => match r.splitOn "/" with
+    | [i, a, b] => match parseInfo i, parseHop a, parseHop b with
+      | some i, some a, some b => some (.oneHop i a b)
+      | _, _, _ => none
+    | _ => none
+  | ["std", ci, ch, segs] => match ci.toNat?, ch.toNat?, allSome ((if segs == "" then [] else segs.splitOn ";").map parseSeg) with
+    | some ci, some ch, some sg => some (.standard ⟨ci, ch, sg⟩)
+    | _, _, _ => none
+  | _ => none
+
+def showVals (l : List Nat) : String := if l.isEmpty then "-" else String.intercalate "," (l.map toString)
+
+def showPayload : Payload → String
+  | .raw b => s!"raw:{toHex b}"
+  | .udp sp dp d => s!"udp:{sp}:{dp}:{toHex d}"
+  | .scmp m => s!"scmp:{m.kind}:{m.typ}:{m.code}:{showVals m.vals}:{toHex m.data}"
+
+def parsePayload (s : String) : Option Payload :=
+  match s.splitOn ":" with
+  | "raw" :: rest => (hexOrRep (String.intercalate ":" rest)).map .raw
+  | "udp" :: sp :: dp :: rest => match sp.toNat?, dp.toNat?, hexOrRep (String.intercalate ":" rest) with
+    | some sp, some dp, some d => some (.udp sp dp d)
+    | _, _, _ => none
+  | "scmp" :: k :: t :: c :: vs :: rest =>
+    match t.toNat?, c.toNat?, allSome ((if vs == "-" then [] else vs.splitOn ",").map String.toNat?),
+          hexOrRep (String.intercalate ":" rest) with
+    | some t, some c, some vs, some d => some (.scmp ⟨k, t, c, vs, d⟩)
+    | _, _, _, _ => none
+  | _ => none
+
+def showPacket (p : PacketM) : String :=
+  let h := p.header
+  s!"{h.trafficClass} {h.flowId} {h.nextHeader} {h.dstIa} {h.srcIa} {showHost h.dstHost} {showHost h.srcHost} {showPath h.path} {showPayload p.payload}"
+
+def parsePacket : List String → Option PacketM
+  | [tc, fl, nh, dia, sia, dst, src, path, pay] =>
+    match tc.toNat?, fl.toNat?, nh.toNat?, dia.toNat?, sia.toNat?, parseHost dst, parseHost src, parsePath path, parsePayload pay with
+    | some tc, some fl, some nh, some dia, some sia, some dst, some src, some path, some pay =>
+      some ⟨⟨tc, fl, nh, dia, sia, dst, src, path⟩, pay⟩
+    | _, _, _, _, _, _, _, _, _ => none
+  | _ => none
+
+/-! ## reference decoder output in the same grammar -/
+open ScionVerif.Spec in
+def refHost (dt dl : Nat) (raw : Bytes) : String :=
+  -- (DT,DL) of the specification: (0,0) IPv4, (0,3) IPv6, (1,0) service; anything else is "unknown type DT, length (DL+1)*4"
+  if dt = 0 ∧ dl = 0 then s!"v4:{toHex raw}"
+  else if dt = 0 ∧ dl = 3 then s!"v6:{toHex raw}"
+  else if dt = 1 ∧ dl = 0 then s!"svc:{RefDecode.be raw 0 2}"
+  else s!"unk:{dt}:{toHex raw}"
+
+open ScionVerif.Spec in
+def refInfo (i : RefDecode.RefInfo) : String := s!"{i.flags},{i.segId},{i.timestamp}"
+open ScionVerif.Spec in
+def refHop (h : RefDecode.RefHop) : String := s!"{h.flags},{h.expTime},{h.consIngress},{h.consEgress},{toHex h.mac}"
+
+open ScionVerif.Spec in
+def refPath : RefDecode.RefPath → String
+  | .empty => "empty"
+  | .other t raw => s!"unsup:{t}:{toHex raw}"
+  | .oneHop i a b => s!"onehop:{refInfo i}/{refHop a}/{refHop b}"
+  | .standard c h lens infos hops =>
+    -- segments in order: the i-th info field owns the next `len` hop fields of the i-th non-empty segment
+    let rec go : List RefDecode.RefInfo → List Nat → List RefDecode.RefHop → List String
+      | i :: is, n :: ns, hs => String.intercalate "/" (refInfo i :: (hs.take n).map refHop) :: go is ns (hs.drop n)
+      | _, _, _ => []
+    s!"std:{c}:{h}:" ++ String.intercalate ";" (go infos (lens.filter (· > 0)) hops)
+
+open ScionVerif.Spec in
+def refShow (kind : String) (b : Bytes) : String :=
+  match RefDecode.header b with
+  | none => "none"
+  | some h =>
+    let l := RefDecode.l4 b h
+    let pay :=
+      if kind == "udp" then s!"udp:{l.udpSrc}:{l.udpDst}:{toHex (l.payload.drop 8)}"
+      else if kind == "scmp" then s!"scmphdr:{l.scmpType}:{l.scmpCode}:{toHex (l.payload.drop 4)}"
+      else s!"raw:{toHex l.payload}"
+    s!"ok v={h.version} hl={h.hdrLenBytes} pl={h.payloadLen} rsv={h.rsv} ulen={l.udpLen} ucs={l.udpChecksum} scs={l.scmpChecksum} " ++
+    s!"{h.trafficClass} {h.flowId} {h.nextHdr} {h.dstIsd * 2 ^ 48 + h.dstAs} {h.srcIsd * 2 ^ 48 + h.srcAs} " ++
+    s!"{refHost h.dt h.dl h.dstHost} {refHost h.st h.sl h.srcHost} {refPath h.path} {pay}"
+
+def pktKindOf : String → Option PktKind
+  | "raw" => some .raw
+  | "udp" => some .udp
+  | "scmp" => some .scmp
+  | _ => none
+
 def step (st : Unit) : List String → Unit × String
   | ["size", k, hx] =>
     match kindOf k, parseHex hx with
@@ -109,6 +272,30 @@ def step (st : Unit) : List String → Unit × String
       | some l => (st, String.intercalate " " l)
       | none => (st, "bad-op")
     | none => (st, "bad-op")
+  | "enc" :: rest =>
+    match parsePacket rest with
+    | some p => match encode p with
+      | .ok b => (st, s!"ok {toHex b}")
+      | .error e => (st, s!"err {us e}")
+    | none => (st, "bad-op")
+  | ["dec", k, hx] =>
+    match pktKindOf k, parseHex hx with
+    | some k, some b => match decode k b with
+      | .ok (p, n) => (st, s!"ok {n} {showPacket p}")
+      | .error e => (st, errStr e)
+    | _, _ => (st, "bad-op")
+  | ["ref", k, hx] =>
+    match parseHex hx with
+    | some b => (st, refShow k b)
+    | none => (st, "bad-op")
+  | ["cksum", dia, sia, dh, sh, proto, al, msg] =>
+    match dia.toNat?, sia.toNat?, parseHex dh, parseHex sh, proto.toNat?, hexOrRep msg with
+    | some dia, some sia, some dh, some sh, some proto, some msg =>
+      let a := al.toList.map (· == '1')
+      let m := Checksum.messageChecksum dia sia dh sh proto msg (a.getD 0 true) (a.getD 1 true) (a.getD 2 true)
+      let sp := Checksum.specChecksum (Checksum.pseudoHeader dia sia dh sh proto msg.length ++ msg)
+      (st, s!"{match m with | some v => toString v | none => "overflow"} {sp}")
+    | _, _, _, _, _, _ => (st, "bad-op")
   | ["const", n] =>
     match constOf n with
     | some v => (st, toString v)
